@@ -404,7 +404,9 @@ class MeiParser(object):
             # there is at least one element with both dur and dur.ppq
             for dur, dppq in zip(durs, durs_ppq):
                 if dppq is not None:
-                    return dppq * dur / 4
+                    ppq = dppq * dur / 4
+                    # (divisions are integers)
+                    return int(ppq) if ppq == int(ppq) else ppq
         else:
             # compute the ppq from the durations
             # add 4 to be sure to not go under 1 ppq
@@ -415,7 +417,9 @@ class MeiParser(object):
 
             least_common_multiple = np.lcm.reduce(durs.astype(int))
 
-            return least_common_multiple / 4
+            # (4 is one of the values: the division is exact, and divisions
+            # are integers)
+            return int(least_common_multiple // 4)
 
     def _handle_initial_staffdef(self, staffdef_el):
         """
